@@ -287,7 +287,7 @@ def run_session(s):
             # errors are outside the domain; the session stops here
             break
         # ---- write probe on the result
-        pv = {"ev": "probe", "f": c["f"], "variant": c.get("variant", 0), "raised": False, "err": "", "cfg": ev["cfg"],
+        pv = {"ev": "probe", "f": c["f"], "variant": c.get("variant", 0), "raised": False, "err": "", "cfg": ev["cfg"], "fam": ev["fam"],
               "new": [], "args": names, "res": rec, "dt": 0, "wrote": False}
         saved = []
         for m in arrays:
